@@ -21,8 +21,8 @@ CHECKS = {
  'C07': ('exploration',
          'configuration product (storage knobs x engines) over exhaustively enumerated sparse program families vs a reference machine incl. final memory',
          'Every program of a two-segment family whose far segment sits at page edges, page-cache aliases, the flat-window '
-         'edge, 2^40/2^57 and the top of the address space, the w=64 fill-constant family and a slice of the single-segment '
-         'images, run under every storage configuration (flat, hybrid windows cut at every word around each boundary, forced '
+         'edge, 2^40/2^57 and the top of the address space, the w=64 fill-constant family a slice of the single-segment '
+         'images and chains through 33..131 scattered 16K-word pages (page-table growth, cache-slot pressure), run under every storage configuration (flat, hybrid windows cut at every word around each boundary, forced '
          'paged, env window, measurement loop, ring lengths 1/2/3/65) and every engine; cause, op count, fault address, IO '
          'calls, last-ops list and the final content of every touched in-segment word must equal the reference machine.',
          'Trusts R1; explicit flat windows are capped at 2^24 words; ops straddling bit 2^64 at w=64 are excluded here '
@@ -51,7 +51,7 @@ CHECKS = {
  'C19': ('model_checking',
          'exhaustive device-access scripts injected at every IO call x engines x storage modes vs R1 with device ops; explicit-state search of the screen command decoder vs a model',
          'Every sequence of <= 2 (3 thorough) device operations (read/write word, read/write packed byte) over in-segment '
-         'addresses chosen to collide with what the program does next (next op flip/jump word, flip targets, lazily-zero tail, '
+         'addresses chosen to collide with what the program does next (next op flip/jump word, the flip / jump word and IO cell of the output op that is executing, flip targets, lazily-zero tail, '
          'segment ends, far page) x values (0, all-ones, redirecting addresses, the w=64 fill constant) injected at each IO call, '
          'on 11 engine/storage modes: returned values, later program behaviour and final memory must equal R1 extended with the '
          'documented DeviceMemory semantics. The screen decoder is searched at byte level (every byte string to depth 8/9) and at '
@@ -66,7 +66,7 @@ CHECKS = {
          'partially overlapping and out-of-pool data ranges) and three-segment sequences, at w=8/16/32/64 and versions 0-3 (lzma '
          'presets 0/6/9): accepted => the Reader loads exactly the denoted image (every data word, zero tails probed at the '
          'threshold edges, neighbours invalid) and all versions give the same image; unrepresentable => FlipJumpWriteFjmException, '
-         'never a raw exception, a refused file or a differently loaded one. Assembled stl programs are compared across versions and '
+         'never a raw exception, a refused file or a differently loaded one; a rejected call leaves no trace (the sequence continues after it). Assembled stl programs are compared across versions and '
          'against an independent decoder.',
          'Trusts the format model R2 (fjv/ref/fjm.py, ~100 lines). A representable input that the writer rejects is counted, not alarmed.',
          'DESIGN.md section 3 C06'),
@@ -75,7 +75,7 @@ CHECKS = {
          'Corpus = files produced by the real Writer/assembler for every width x version (single op, multi-segment with lazy tail, '
          'unreferenced data, shared data, empty data, assembled hello-world, incompressible 140-190 KB v3 payloads, presets 0/9). '
          'Every strict prefix (every byte for small files), every single-field substitution over an edge alphabet, single-byte payload '
-         'substitutions, appended bytes (1 byte .. 3x64 KiB) and all strings of length <= 2 are loaded: only an image or '
+         'substitutions, appended bytes (1 byte .. 3x64 KiB), recompressed v3 payloads of other lengths and all strings of length <= 2 are loaded: only an image or '
          'FlipJumpReadFjmException may result, within 10 s and a size-related allocation budget; a loaded prefix must equal the '
          'original image; a loaded file must be consistent by the format model and decode to its image.',
          'No checksum exists, so a field change that yields another well-formed file is a different program, not a violation; a v3 decompression bomb is not enumerated.',
@@ -88,7 +88,7 @@ CHECKS = {
          'layout is possible the program must assemble and every statement word, label, reserved range and segment must match '
          'the two-pass denotation, and every wflip chain is executed out of the image (flips exactly the set bits, once each, '
          'popcount ops, ends at the return address, auxiliary ops outside user statements / reserved space); impossible '
-         'layouts must be rejected with a FlipJumpException.',
+         'layouts must be rejected with a FlipJumpException (an output file that does not load is a violation).',
          'Trusts R3 (checks/C02.py denote) and R5. Layouts whose only problem may be the implementation-chosen wflip area are accepted either way.',
          'DESIGN.md section 3 C02'),
  'C12': ('exploration',
@@ -97,7 +97,7 @@ CHECKS = {
          '?: x operator combination in every position, non-associative comparison chains (must be rejected), 1500 literal forms '
          '(decimal/hex/binary, every printable char, every escape, all 256 \\xHH in both cases, strings up to 3 chars), and every '
          'pair tree x every partition of its three leaves into literal / constant / macro parameter / label / rep iterator '
-         '(value must not depend on the resolution stage); each value is observed completely (320 bits + sign) through '
+         '(value must not depend on the resolution stage), and ~1500 expressions of one program sharing four constants (using a constant under an operator never changes it); each value is observed completely (320 bits + sign) through '
          'assembled op words and compared with Python-int evaluation.',
          'R5 holds an independent transcription of the pinned precedence table (the repository documents it only in the grammar). '
          'Expressions with an undefined sub-expression or more than 300 bits are skipped (counted).',
@@ -109,7 +109,8 @@ CHECKS = {
          '.rel and ..rel names, $, a local passed down, a label declared through a parameter, rep counts 0/1/3, three call '
          'levels with equal names, iterator spelled like its own macro parameter) x every assignment of the pool {a,b,i} to '
          'the name slots (about 2 800 well-formed programs, 2 660 with a collision) x w x every 2-way file split: the image '
-         'must equal the image of the program inlined by R4 on the AST.',
+         'must equal the image of the program inlined by R4 on the AST; every worker process first assembles a program defining '
+         'a, b, i as constants and then assembles every program next to the stl as well (no capture across assemblies).',
          'Trusts R4 (fjv/ref/macro.py, 150 lines); the primitive side is assembled by the real assembler (C02 covers it). `$` as a macro ARGUMENT is rejected by the assembler and is outside the family.',
          'DESIGN.md section 3 C03'),
  'C14': ('exploration',
@@ -117,7 +118,7 @@ CHECKS = {
          '5 arithmetic faults x 16 evaluation stages (parse-time folding, constant definition/use, macro argument, rep count / '
          'iterator, pad / segment / reserve argument, late label resolution in flip / jump / wflip / segment, $) and ~70 further '
          'error templates (lexing, syntax, macros, labels, constants, directives, ranges, files) at every width and version, '
-         'plus every deletion / duplication / swap / substitution (41-token alphabet) of every token of four seed programs (one '
+         'every sequence of <= 3 (4 thorough) primitive statements over a 16-statement alphabet, plus every deletion / duplication / swap / substitution (41-token alphabet) of every token of four seed programs (one '
          'with the stl): the outcome must be success or a FlipJumpException that is not the generic "Unknown exception" funnel '
          '(and names the offending identifier for templates that carry one), within 30 s, leaving no loadable output file.',
          'Astronomically large ** / << operands and expression nesting beyond 300 are not generated.',
@@ -128,14 +129,15 @@ CHECKS = {
          'its address (exact name for top-level/extern labels, a distinct name ending in the source label for macro-local ones), '
          'save/load must round-trip (also synthetic tables with unicode / 2 000 entries), and get_breakpoint_handler must resolve '
          'every exact label and every separator-delimited fragment of every name (incl. fragments with ( ) . : { -) to exactly '
-         'the addresses of the labels containing it.',
+         'the addresses of the labels containing it. Histories over one debug file: every sequence of <= 4 (5) operations over save / assemble / '
+         'replace / copy / load / handler x five spellings of the path; every read returns the table written last.',
          'The naming format is deliberately not pinned.',
          'DESIGN.md section 3 C16'),
  'C04': ('model_checking',
          'explicit-state search over (operand values x block scratch residue) of every documented hex macro form executed by the real stl on the working-tree native engine; whole-image frame invariant',
          'About 60 hex macro forms (memory, logic, add/sub and their shifted / constant forms, inc/dec/neg/abs, shifts, count_bits, '
          'sign_extend, mul, mul10, add_mul, div, idiv with every rem_opt, if/if0/if1/sign/cmp/scmp/min/max/if_flags, single-hex '
-         'forms) as blocks of one assembled program: n=1 and n=2 exhaustively (65 536 operand pairs per two-operand block), '
+         'forms, in-place div forms with q / r aliasing an input) as blocks of one assembled program: n=1 and n=2 exhaustively (65 536 operand pairs per two-operand block), '
          'every vector length 3..20 (thorough ..40, 64, 130) over a boundary alphabet, w=64/32(/16). Every transition checks the '
          'destination value against the doc-comment formula, the documented exit, and that NO other word of the whole memory image '
          'changed (no stale carry / table state); every distinct scratch residue a block leaves is re-explored against every '
@@ -145,7 +147,7 @@ CHECKS = {
  'C05': ('model_checking',
          'explicit-state search over (operand values x block scratch residue) of every documented bit macro form; whole-image frame invariant',
          'About 50 bit macro forms (memory, logic incl. xor_zero, if/if0/if1/cmp, shifts and rotates, inc/dec/neg/add/sub, mul, '
-         'mul_loop, mul10, div10, div/idiv and their loop variants, single-bit forms incl. inc1/add1): every vector length 1..8 '
+         'mul_loop, mul10, div10, div/idiv and their loop variants, in-place div forms with q / r aliasing an input, single-bit forms incl. inc1/add1): every vector length 1..8 '
          'exhaustively (all 65 536 operand pairs at n=8), 9..24 (thorough ..40, 64) over a boundary alphabet, at w=32/64/16; same '
          'oracle, frame invariant, residue closure and mixed sequences as C04.',
          'As C04. Harnesses that do not fit the 2^16-bit address space at w=16 are skipped and counted.',
@@ -155,7 +157,7 @@ CHECKS = {
          '32 hex pointer macro forms (read/write/xor/zero of hexes and bytes, 1- and 2-cell forms, *_and_inc, ptr_inc/dec/add/sub, '
          'ptr_index and read_nth/write_nth with negative indices, ptr_flip, ptr_flip_dbit, ptr_wflip, ptr_wflip_2nd_word, ptr_jump) at '
          'w=64/32 and 8 bit-namespace pointer macros at w=64/32/16, over all 64 ordered (previous target, target) pairs of an 8-cell '
-         'fenced buffer x cell and value alphabets: exactly the pointed cell / destination changes (whole-image frame invariant, guard '
+         'fenced buffer x cell and value alphabets (all 256 values of the pointed cell on a short target chain): exactly the pointed cell / destination changes (whole-image frame invariant, guard '
          'cells, every other variable) and to_flip / to_jump mirror their _var copies. Stack: every sequence of <= 4 (6 thorough) '
          'operations over push/pop of hexes, bytes, 3- and 4-vectors and sp_inc/dec within depth 0..6 against a Python list (popped '
          'values, sp, every stack cell, get_sp). Calls: every call tree of depth <= 2 (3), fan-out <= 2 over call / call with a '
@@ -170,25 +172,25 @@ CHECKS = {
          'terminators (parsed value mod 16^n, stop byte, error exit, exact number of input bits consumed, end-of-input when '
          'truncated), 14 cast forms exhaustively incl. dirty destinations, and the 5 buffer helpers over all strings of length <= 3 '
          'over 4 bytes x counts 0..3; variables and the whole image otherwise unchanged.',
-         'On an error exit the destination is unspecified. Three documentation/behaviour mismatches are recorded as known findings (F17-F19).',
+         'On an error exit the destination is unspecified. Three documentation/behaviour mismatches found here (F17-F19) were repaired by fix: commits.',
          'DESIGN.md section 3 C09'),
  'C11': ('exploration',
          'exhaustive enumeration of _fjcore.Memory API call sequences over an adversarial alphabet on an ASan+UBSan build of the working-tree C source, plus sanitizer runs of the engine drivers',
-         'All call sequences of depth <= 2 over a 124-operation alphabet (add_segment at page / window / 2^40 / 2^58 / 2^63 / 2^64 edges '
+         'All call sequences of depth <= 2 over a 128-operation alphabet (add_segment at page / window / 2^40 / 2^58 / 2^63 / 2^64 edges '
          'with zero, huge, exactly-to-2^64 and overflowing lengths; set_words inside / straddling / wrapping / with bad items; '
          'get_word / set_word at the same addresses; run with ring lengths 0/1/3/-1/2^62, start_ip 0/1/w/2^64-1 and device callbacks '
-         'that poke the memory, add segments, re-init the object or run recursively; __init__ on a live object; 5000 descending '
-         'segments) for 7 constructor configurations (32 thorough), depth 3 as (program load, run, anything) (depth 4 thorough), plus '
+         'that poke the memory, add segments, re-init the object (also with rejected arguments) or run recursively; __init__ on a live object, accepted and rejected; 5000 descending '
+         'segments) for 7 constructor configurations (32 thorough), depth 3 as (program load, run, anything) and (program load, rejected re-init, anything) (depth 4 thorough), plus '
          'slices of the C01 / C07 / C19 drivers and .fjm files with adversarial segment tables - all on a clang '
          '-fsanitize=address,undefined build loaded with LD_PRELOAD: no sanitizer report, normal worker exit.',
          'As strong as the sanitizers on the explored sequences; reference-count leaks are not detected. Most workers use a 2^16-word flat window (FLIPJUMP_FLAT_MAX_WORDS) to keep the 64 MB default-window fill out of the per-run cost; one worker keeps the real default.',
          'DESIGN.md section 3 C11'),
  'C13': ('model_checking',
          'explicit-state search over assemble-call histories in one process (forked children of a never-assembled parent); probe bytes vs a fresh interpreter process',
-         'Every history of depth <= 2 (3 thorough) over 14 assemble actions (stl programs at two widths, no-stl, werror, a parse failure '
-         'inside nested namespaces, a lexing error, an unknown macro after the cache was filled, recursion overflow with depth 5, depth '
-         '2000, a rep-heavy program, the stl under other short names, another user short name, another directory) followed by four '
-         'probe assemblies (different widths, versions, werror): the .fjm and .fjd bytes of every probe must equal those of a brand-new '
+         'Every history of depth <= 2 (3 thorough) over 17 assemble actions (stl programs at two widths, no-stl, werror, a parse failure '
+         'inside nested namespaces, a lexing error, an unknown macro after the cache was filled, recursion overflow with depth 5, depths '
+         '2000 and 4000, programs defining top-level constants, a rep-heavy program, the stl under other short names, another user short name, another directory) followed by eight '
+         'probe assemblies (different widths, versions, werror, programs using the constants\' names as labels, expressions nested 400 / 700 deep): the .fjm and .fjd bytes of every probe must equal those of a brand-new '
          'interpreter process (two reference processes with different hash seeds and directories must agree as well).',
          'Each history runs in a forked child of a parent that imported flipjump but never assembled. The process-global state key is reported, not used to merge histories.',
          'DESIGN.md section 3 C13'),
@@ -208,7 +210,7 @@ CHECKS = {
          'thorough adds w=16, --werror and all combinations) through `fj files -o`, `fj --asm -o` + `fj --run` (subprocesses of '
          'python -m flipjump.flipjump_cli on the working tree) and the Python API with the same explicit options: the three .fjm '
          '(and .fjd) files must be byte-identical, header width/version as requested or defaulted, program output and termination '
-         'identical; defaults observed directly: temporary file of the one-step flow is width 64 / version 1, with -o version 3, stl '
+         'identical (the API routes run in a process where a caller has taken flipjump.get_stl_paths() and appended to / truncated / reversed its list); defaults observed directly: temporary file of the one-step flow is width 64 / version 1, with -o version 3, stl '
          'included unless --no_stl.',
          'The one-step temporary file is observed by wrapping flipjump_cli.TemporaryDirectory in-process.',
          'DESIGN.md section 3 C20'),
